@@ -2,6 +2,13 @@
 //@serves C45
 use vstd::prelude::*;
 verus! {
+// std specifications not in vstd (A-std)
+pub assume_specification<T, F: FnOnce(T) -> bool> [Option::<T>::is_some_and] (o: Option<T>, f: F) -> (r: bool)
+    requires o.is_some() ==> f.requires((o.unwrap(),))
+    ensures o.is_none() ==> !r, o.is_some() ==> f.ensures((o.unwrap(),), r);
+pub assume_specification<T, F: FnOnce(T) -> bool> [Option::<T>::is_none_or] (o: Option<T>, f: F) -> (r: bool)
+    requires o.is_some() ==> f.requires((o.unwrap(),))
+    ensures o.is_none() ==> r, o.is_some() ==> f.ensures((o.unwrap(),), r);
 //@src grpc/src/abci_proofs.rs
 
 // ---------------------------------------------------------------------------
